@@ -205,6 +205,7 @@ def prop_roundtrip(case):
     from glotaran.io import save_parameters
 
     fmt = case["fmt"]
+    pfx = f"{case['sub']}.{fmt}" if case.get("sub") else fmt
     original, trees = build_parameters(case)
     for label, value in case.get("stale", []):
         # a referenced parameter changes after construction: the value column of the file then holds an
@@ -220,6 +221,7 @@ def prop_roundtrip(case):
 
     labels = [p["label"] for p in case["params"]]
     numeric_labels = all(numeric_looking(x) for x in labels)
+    na_label = any(x in G.NA_TOKEN_LABELS for x in labels)
     exprs = [p["expression"] for p in case["params"] if p["expression"] is not None]
     numeric_exprs = bool(exprs) and all(G.is_numeric_literal(t) for t in exprs)
 
@@ -237,17 +239,17 @@ def prop_roundtrip(case):
     for k in range(1, int(case.get("cycles", 3)) + 1):
         with tempfile.TemporaryDirectory(prefix="verif_c16_") as d:
             path = os.path.join(d, f"parameters_{k}.{fmt}")
-            with expect_ok(f"{fmt}.save"):
+            with expect_ok(f"{pfx}.save"):
                 save_parameters(current, path, **save_kwargs)
-            check(os.path.isfile(path) and os.path.getsize(path) > 0, f"{fmt}.save", "no file written")
-            with expect_ok(f"{fmt}.labels_numeric_column" if numeric_labels else f"{fmt}.load"):
+            check(os.path.isfile(path) and os.path.getsize(path) > 0, f"{pfx}.save", "no file written")
+            with expect_ok(f"{pfx}.label_na_token" if na_label else f"{pfx}.labels_numeric_column" if numeric_labels else f"{pfx}.load"):
                 loaded = load_parameters(path, **load_kwargs)
-        got = compare(fmt, snap0, trees, loaded, k, RTOL, numeric_labels, numeric_exprs)
+        got = compare(pfx, snap0, trees, loaded, k, RTOL, numeric_labels, numeric_exprs)
         # Parameters.__eq__ must agree with an exact attribute-wise comparison
         ex = exact_equal(snap0, got)
-        with expect_ok(f"{fmt}.eq_call"):
+        with expect_ok(f"{pfx}.eq_call"):
             eq1, eq2 = (loaded == original), (original == loaded)
-        check(bool(eq1) == ex and bool(eq2) == ex, f"{fmt}.eq_consistent", lambda: f"cycle {k}: loaded == original is {eq1}/{eq2}, exact attribute comparison says {ex}")
+        check(bool(eq1) == ex and bool(eq2) == ex, f"{pfx}.eq_consistent", lambda: f"cycle {k}: loaded == original is {eq1}/{eq2}, exact attribute comparison says {ex}")
         exact = exact and ex
         current = loaded
 
@@ -657,6 +659,12 @@ PROPERTY = Property(
             doc="list / dict / yml specifications vs programmatic construction"),
         Sub("spec_sci", prop=prop_spec, strategy=lambda: G.specifications(True), budget={"quick": 800, "thorough": 40000},
             doc="as spec, plus scientific-notation strings as values of unlabelled items (automatic numbering)"),
+        *(
+            [Sub("na_label", prop=prop_roundtrip, strategy=lambda: G.parameter_sets(None, na_labels=True), budget={"quick": 160, "thorough": 4000},
+                 doc="opt-in (VERIF_C16_NA_LABELS=1): a flat label equal to a whole-cell missing-value token of pandas (known-finding candidate D16e)")]
+            if os.environ.get("VERIF_C16_NA_LABELS") == "1"
+            else []
+        ),
         Sub("fuzz", custom=fuzz_custom, doc="atheris through hypothesis.fuzz_one_input on the csv/tsv/spec strategies (thorough only)"),
     ],
     assumptions=[
